@@ -131,9 +131,15 @@ def check_severity_match(rep, prog):
     r = I.call(PT + "considerPELIfSeverityMatches", [uh, cfg])
     where = "considerPELIfSeverityMatches"
     sev = Sym("sev", "int")
-    loops = [L for L in I.loops.values() if L.func == PT + "considerPELIfSeverityMatches"]
+    loops = list(I.loops.values())
     cond = None
-    if len(loops) == 1 and loops[0].iter == sevs:
+    if isinstance(r, Op) and r.op == "exists" and len(loops) == 1 and loops[0].iter == sevs and r.args[0] == Const(loops[0].lid) \
+            and not loops[0].stops:
+        # any(<test> for g in config.severities)
+        cond = r.args[1]
+        el = Op("elem", sevs, loops[0].idx)
+        rep.ok("C07.R3.severity-group", "true iff some chosen group matches, false otherwise (any(...) over the chosen groups)")
+    elif len(loops) == 1 and loops[0].iter == sevs:
         L = loops[0]
         ex = [x for x in walk(r) if isinstance(x, Op) and x.op == "exists" and x.args[0] == Const(L.lid)]
         if ex and isinstance(r, Ite):
@@ -218,7 +224,8 @@ def check_options(rep, prog):
     # severities: extended from the table value of each chosen name
     I = cli.I
     sdest = cli.options.get("-S")
-    ext = [e for e in cli.events if e.kind == "extend" and e.func == PT + "main"]
+    sev_list = I.obj(cli.config).attrs.get("severities") if cli.config is not None else None
+    ext = [e for e in cli.events if e.kind == "extend" and e.data[0] == sev_list]
     ok = sdest is not None and len(ext) == 1 and cli.norm(e_guard(ext[0])) == cli.arg(sdest)
     if ok:
         items = list_items(I, ext[0].data[1])
